@@ -4,6 +4,7 @@ import SR.Checker.Spec
 import SR.Checker.Sim
 import SR.Checker.Verdict
 import SR.Checker.Assert
+import SR.Proofs.Checker.Fuel
 /-! Driver commands of the checker group (C01, C02, C03, C11, C12, C13): `chk` runs the machine
 scheduler; `o-chk <prop> ...` evaluates the declarative oracle of one property on implementation outputs. -/
 namespace SR.Drv.Chk
@@ -56,6 +57,9 @@ def Case.params (c : Case) : Params Nat Nat Nat :=
 
 def natsStr (l : List Nat) : String := toString (SExp.ofNats l)
 
+/-- the ad-hoc fuel formula the driver used at first; NOT sufficient in general (`C01_driver_fuelFor_insufficient`,
+    Props/C01Fuel.lean) — kept only because that theorem is about it.  The driver runs with `Graph.fuel`
+    (`fuelFor'` of Props/C01Fuel.lean), which is proved sufficient on every well-formed graph. -/
 def fuelFor (g : Graph) (props : List GProp) : Nat :=
   20 + (g.n + 2) * (8 + props.length * 2 + (g.adj.map List.length).foldl (· + ·) 0 + g.init.length) * 2
 
@@ -207,8 +211,9 @@ def handle : Drv.Handler
     let ps ← ps.listOf? GProp.ofSExp?
     let (cfg, fin) ← parseCfg cfg
     let c : Case := { g, props := ps, cfg, finish := fin }
+    if !decide g.WF then pure "ill-formed-graph" else
     let d := if strat == "dfs" then Discipline.dfs else if strat == "bfs" then Discipline.bfs else Discipline.ondemand
-    let s := runSingle c.params d (fuelFor g ps)
+    let s := runSingle c.params d (g.fuel ps.length)
     pure (showSt s ++ showVerdict c.params s)
   -- the provided helpers of the `Checker` trait after a single-threaded run: per property
   -- `(i classification assert_any assert_no assert_discovery(own actions) assert_discovery(given actions))`
@@ -220,7 +225,7 @@ def handle : Drv.Handler
     let c : Case := { g, props := ps, cfg, finish := fin }
     let d := if strat == "dfs" then Discipline.dfs else if strat == "bfs" then Discipline.bfs else Discipline.ondemand
     let P := c.params
-    let s := runSingle P d (fuelFor g ps)
+    let s := runSingle P d (g.fuel ps.length)
     let M := g.toSys
     -- `discoveries()` rebuilds each stored fingerprint path with `Path::from_fingerprints` (states are their own keys)
     let view : Assert.View Nat Nat :=
@@ -254,7 +259,7 @@ def handle : Drv.Handler
     let rep ← rep.nats?
     let c : Case := { g, props := ps, cfg, finish := fin }
     let P : Params Nat Nat Nat := { c.params with key := fun s => rep.getD s s }
-    let st := runSingle P .dfs (fuelFor g ps)
+    let st := runSingle P .dfs (g.fuel ps.length)
     pure (showSt st ++ showVerdict P st)
   | "o-chk-sym", [g, ps, cfg, rep, obs] => do
     let g ← Graph.ofSExp? g
